@@ -449,7 +449,7 @@ def generate_facts(repo):
         scope_closed = b.count('{', i_guard, i_second) < b.count('}', i_guard, i_second) + 1 and b.count('}', i_sync, i_second) >= 2
         negated = b[i_second - 20:i_second].strip().endswith('!self.') or '!self.too_many_dirty_bytes_in_active_blob(' in b[i_sync:]
         return (i_loop < i_cas < i_guard < i_first < i_sync < i_second and scope_closed and negated and
-                'return Ok(())' in b[i_second:] and '.await' not in b[i_guard:i_first].replace('self.safe.read().await', ''))
+                'return Ok(())' in b[i_second:] and '.await' not in b[i_guard:i_first].replace('self.safe.read().await', '').replace('ablob.read().await', ''))
     F('BACKGROUND_SYNC_LOOKS_AGAIN', lambda: (looks_again()), 'src/storage/core.rs',
       'Inner::fsyncdata: a loop; the flag is taken by a SeqCst compare-exchange, lowered by the guard at the end of an inner scope, and AFTER that the dirty bytes are looked at again; the function returns only when they are within the limit (Conc/SyncHint.v steps T0..T5)')
     stf = Lazy(lambda: body_with(core, 'should_try_fsync', ['too_many_dirty_bytes']))
